@@ -1431,8 +1431,7 @@ func ReplaceMissingNHG(c *fluent.GRIBIClient, t testing.TB, _ ...TestOpt) {
 			c.Modify().DeleteEntry(t,
 				fluent.NextHopEntry().
 					WithNetworkInstance(defaultNetworkInstanceName).
-					WithIndex(42).
-					WithIPAddress("192.0.2.3"))
+					WithIndex(42))
 		},
 	}
 
@@ -1499,8 +1498,7 @@ func ReplaceMissingIPv4Entry(c *fluent.GRIBIClient, t testing.TB, _ ...TestOpt) 
 			c.Modify().DeleteEntry(t,
 				fluent.NextHopEntry().
 					WithNetworkInstance(defaultNetworkInstanceName).
-					WithIndex(42).
-					WithIPAddress("192.0.2.3"))
+					WithIndex(42))
 		},
 	}
 
@@ -1585,7 +1583,14 @@ func TestOperationIsolation(c *fluent.GRIBIClient, t testing.TB, opts ...TestOpt
 	}
 
 	clientA.Modify().AddEntry(t, entries...)
+	// Wait for the operations to be answered before client A goes away, and make
+	// client B complete a further round trip, such that any response that was
+	// (erroneously) sent to client B has been received by the time it is checked.
+	if err := awaitTimeout(context.Background(), clientA, t, time.Minute); err != nil {
+		t.Fatalf("got unexpected error from client A, %v", err)
+	}
 	clientA.Stop(t)
+	clientB.Modify().UpdateElectionID(t, electionID.Load(), 0)
 
 	clientBErr := awaitTimeout(context.Background(), clientB, t, time.Minute)
 	chk.HasNRecvErrors(t, clientBErr, 0)
